@@ -18,7 +18,7 @@ from vlib import tlc as tlcmod
 from vlib.tlc import RawTla
 from vlib.ctx import Machinery
 
-LEAFMAT = {"L1": [[1., 2.], [3., 5.]], "L2": [[2., -1.], [0., 3.]], "S1": [[2., 1.], [1., 4.]]}
+LEAFMAT = {"L1": [[1., 2.], [3., 5.]], "L2": [[2., -1.], [0., 3.]], "S1": [[2., 1.], [1., 4.]], "S2": [[1., 3.], [3., -2.]]}
 FLAGS = ["_implementation_checked", "_is_mv_implemented", "_is_mm_implemented", "_is_rmv_implemented",
          "_is_rmm_implemented", "_is_fullmatrix_implemented", "_is_gpn_implemented"]
 
@@ -198,7 +198,7 @@ def has_caps(e, node):
 
 
 def expr_replay(ctx, depth, budget, rng):
-    c = dict(MulRmvUsesPublic=True, AdjMvFallsBack=True, Depth=depth)
+    c = dict(MulRmvUsesPublic=True, AdjMvFallsBack=True, MatmulNotHerm=True, Depth=depth)
     t, cf = tlcmod.gen_mc(ctx.work, "LinopExpr", "MC_LE_replay", c, invariants=["AllGood", "HermSound"])
     dot = os.path.join(ctx.work, "le.dot")
     ctx.model_check(t, cf, workers=16, dump_dot=dot, label="expression trees depth<=%d (replay)" % depth, timeout=1800)
@@ -206,6 +206,11 @@ def expr_replay(ctx, depth, budget, rng):
     os.remove(dot)
     ids = sorted(nodes)
     rng.shuffle(ids)
+
+    def size(e_):
+        return 1 + sum(size(e_[c_]) for c_ in ("o", "a", "b") if c_ in e_ and isinstance(e_[c_], dict))
+    # every tree with at most one binary / two unary constructs first (all pairs of leaves under every constructor), then the seeded rest
+    ids.sort(key=lambda i_: 0 if size(nodes[i_]["e"]) <= 3 else 1)
     n = 0
     imats = {k: torch.tensor(v, dtype=torch.float64) for k, v in LEAFMAT.items()}
     x = torch.tensor([3., -2.], dtype=torch.float64)
@@ -261,7 +266,7 @@ def expr_replay(ctx, depth, budget, rng):
             mats = {}
             for k in LEAFMAT:
                 m = torch.randn(bshape + (2, 2), dtype=dtype)
-                if k == "S1":
+                if k in ("S1", "S2"):
                     m = m + m.transpose(-2, -1).conj()
                 mats[k] = m
             log2 = []
@@ -526,8 +531,8 @@ def run(ctx):
     rng = random.Random(ctx.seed)
     torch.manual_seed(ctx.seed)
     # design level
-    for sw in ("MulRmvUsesPublic", "AdjMvFallsBack"):
-        c = dict(MulRmvUsesPublic=True, AdjMvFallsBack=True, Depth=2)
+    for sw in ("MulRmvUsesPublic", "AdjMvFallsBack", "MatmulNotHerm"):
+        c = dict(MulRmvUsesPublic=True, AdjMvFallsBack=True, MatmulNotHerm=True, Depth=2)
         c[sw] = False
         t, cf = tlcmod.gen_mc(ctx.work, "LinopExpr", "MC_LE_dev_" + sw, c, invariants=["AllGood"])
         ctx.expect_violation(t, cf, inv="AllGood", label="deviation " + sw, workers=8, timeout=600)
